@@ -245,8 +245,14 @@ func (t *fileTracker) event(in ssa.Instruction) int {
 		}
 		return 2
 	}
-	for _, a := range call.Call.Args {
+	for i, a := range call.Call.Args {
 		if t.isH(a) || t.isDerived(a) {
+			// the handle is handed to an extracted helper: use the helper's own effect on it
+			if g := call.Call.StaticCallee(); isNewHelper(g) && t.isH(a) && i < len(g.Params) {
+				if e, ok := helperHandleEffect(g, i); ok {
+					return e
+				}
+			}
 			return 2
 		}
 	}
@@ -364,6 +370,9 @@ func failStopSimple(fn *ssa.Function, call ssa.CallInstruction) (ok bool, why st
 		if op == nil {
 			continue
 		}
+		if op == e {
+			continue // the call's own error is what is returned
+		}
 		fine := true
 		for _, o := range errOrigins(op) {
 			if o == e || nonNilMaker(o) {
@@ -443,14 +452,66 @@ type RenameSite struct {
 	Fn       *ssa.Function
 	Call     ssa.CallInstruction
 	Src, Dst ssa.Value
+	// Delegated: the rename sits in an extracted "publish" helper and renames its own
+	// parameters; what precedes the rename (staging, sync, cleanup) is checked at the
+	// helper's call sites, which appear as Lifted sites (Call = the helper call).
+	Delegated, Lifted bool
+}
+
+var helperEffectBusy = map[*ssa.Function]bool{}
+
+// helperHandleEffect summarises what a new helper does to the file handle it receives
+// as parameter i, on its success returns: 2 = leaves unsynced writes, 1 = every path
+// wrote and synced, 0 = state unchanged.
+func helperHandleEffect(g *ssa.Function, i int) (int, bool) {
+	if g == nil || g.Blocks == nil || helperEffectBusy[g] {
+		return 0, false
+	}
+	helperEffectBusy[g] = true
+	defer delete(helperEffectBusy, g)
+	t := newHandleTracker(g, g.Params[i])
+	seen := map[int]bool{}
+	for _, ret := range successReturns(g) {
+		st := t.stateBefore(ret)
+		seen[st] = true
+	}
+	switch {
+	case seen[2]:
+		return 2, true
+	case seen[1] && !seen[0]:
+		return 1, true
+	}
+	return 0, true
 }
 
 func renameSites(p *Prog) []RenameSite {
 	var out []RenameSite
+	paramIdx := func(fn *ssa.Function, v ssa.Value) int {
+		for i, q := range fn.Params {
+			if ssa.Value(q) == v {
+				return i
+			}
+		}
+		return -1
+	}
 	for _, fn := range p.ProdFuncs() {
 		for _, call := range callsTo(fn, nameIs("os.Rename")) {
 			a := call.Common().Args
-			out = append(out, RenameSite{fn, call, a[0], a[1]})
+			rs := RenameSite{Fn: fn, Call: call, Src: a[0], Dst: a[1]}
+			if fn.Parent() == nil && isNewHelper(fn) {
+				si, di := paramIdx(fn, a[0]), paramIdx(fn, a[1])
+				sites := callSitesOf(fn)
+				if si >= 0 && di >= 0 && len(sites) > 0 {
+					rs.Delegated = true
+					for _, cs := range sites {
+						ca := cs.Common().Args
+						if si < len(ca) && di < len(ca) {
+							out = append(out, RenameSite{Fn: cs.Parent(), Call: cs, Src: ca[si], Dst: ca[di], Lifted: true})
+						}
+					}
+				}
+			}
+			out = append(out, rs)
 		}
 	}
 	return out
@@ -520,7 +581,7 @@ func fsPublicationRules(c *Ctx, wantSync, wantTmp bool) {
 				}
 			}
 		}
-		if wantTmp {
+		if wantTmp && !rs.Delegated {
 			const rule = "R1-tmp-staging"
 			// src = dst + ".tmp" (or a CreateTemp name)
 			ok := false
@@ -534,8 +595,12 @@ func fsPublicationRules(c *Ctx, wantSync, wantTmp bool) {
 			}
 			c.check(ok, rule, tag+": staged name = final name + \".tmp\" (or os.CreateTemp)", c.pos(rs.Call), "src is the temporary sibling of dst", "the renamed source is not a temporary sibling of the destination (data would be written under the final name)")
 		}
-		if wantSync {
+		if wantSync && !rs.Delegated {
 			const rule = "R1-sync-before-rename"
+			if rs.Lifted {
+				okR, whyR, _ := failStopSimple(fn, rs.Call)
+				c.check(okR, "R4-publication-errors", tag+": failure of the publish helper is fail-stop", c.pos(rs.Call), "no success return reachable after failure", whyR)
+			}
 			if handle != nil {
 				t := newHandleTracker(fn, handle)
 				st := t.stateBefore(rs.Call)
@@ -553,6 +618,27 @@ func fsPublicationRules(c *Ctx, wantSync, wantTmp bool) {
 					}
 					nS++
 					c.requireGuard("R4-publication-errors", fn, Site{rs.Call, "os.Rename(" + shortExpr(rs.Dst) + ")"}, cmpFact(vIs(resultOf(call, 0)), token.EQL, vNil(), "Sync err == nil"))
+				}
+				// ... or the Sync performed by an extracted staging helper that received the handle
+				for _, call := range calls(fn) {
+					k, isCall := call.(*ssa.Call)
+					if !isCall || !dominates(call, rs.Call) {
+						continue
+					}
+					g := k.Call.StaticCallee()
+					if !isNewHelper(g) {
+						continue
+					}
+					for i, a := range k.Call.Args {
+						if t.isH(a) && i < len(g.Params) {
+							if e, ok := helperHandleEffect(g, i); ok && e == 1 {
+								nS++
+								if ei := errResultIndex(k.Call.Signature()); ei >= 0 {
+									c.requireGuard("R4-publication-errors", fn, Site{rs.Call, "os.Rename(" + shortExpr(rs.Dst) + ")"}, cmpFact(vIs(resultOf(call, ei)), token.EQL, vNil(), fnName(g)+" err == nil"))
+								}
+							}
+						}
+					}
 				}
 				c.check(nS >= 1, rule, tag+": a Sync of the staged file dominates the rename", c.pos(rs.Call), fmt.Sprintf("%d dominating Sync call(s)", nS), "no Sync call on the staged file dominates the rename")
 				// explicit Close between sync and rename must be fail-stop
@@ -599,7 +685,8 @@ func fsPublicationRules(c *Ctx, wantSync, wantTmp bool) {
 				}
 				c.check(nProd > 0 && okAll, rule, tag+": the renamed file is produced by callees that leave it synced", c.pos(rs.Call), strings.Join(why, "; "), "cannot establish that the renamed file was synced: "+strings.Join(why, "; "))
 			}
-
+		}
+		if wantSync && !rs.Lifted {
 			// R2: directory sync before success
 			const rule2 = "R2-dirsync-before-success"
 			var cut []Edge
